@@ -34,7 +34,16 @@ def build_region(rnd, D):
 def special_region(D, seed):
     """regions around places where sexagesimal formatting is delicate: just south of the equator, RA ~ 0h"""
     r = Region(maxdepth=D)
-    if seed == -1:
+    if seed <= -3:
+        # levels whose only stored pixel is nested pixel 0 (and a level holding pixels 0 and 5)
+        r.add_pixels(np.array([0]), 1)
+        if D >= 2:
+            r.add_pixels(np.array([0 + 16 * 3]), 2) if seed == -4 else r.add_pixels(np.array([0, 5]) + 16 * 7, 2)
+        if D >= 3 and seed == -4:
+            r.add_pixels(np.array([0]) + 64 * 9, 3)
+            r.pixeldict[2] = set([0])
+            r.pixeldict[1] = set()
+    elif seed == -1:
         r.add_circles(np.radians(10.0), np.radians(-0.3), np.radians(0.5))
     else:
         r.add_circles(np.radians(0.2), np.radians(-0.6), np.radians(0.4))
@@ -121,7 +130,7 @@ def crosscheck_exports(p):
     tmp = tempfile.mkdtemp(prefix="c12_")
     failures, seen, evals = [], set(), 0
     try:
-        cases = [(1, 0), (2, 1), (12, 2), (7, -1), (8, -2)] + [(rnd.randint(1, 6), 100 + i) for i in range(n)]
+        cases = [(1, 0), (2, 1), (12, 2), (7, -1), (8, -2), (1, -3), (2, -3), (3, -4), (3, -3)] + [(rnd.randint(1, 6), 100 + i) for i in range(n)]
         for D, seed in cases:
             evals += 1
             r = special_region(D, seed) if seed < 0 else build_region(random.Random(seed), D)
@@ -138,7 +147,7 @@ def crosscheck_exports(p):
 
 
 def replay_exports(p):
-    cases = p.get("cases") or [(1, 0), (2, 1), (3, 5), (4, 7), (5, 9), (7, -1), (8, -2)] + [(random.Random(i).randint(1, 5), 200 + i) for i in range(60)]
+    cases = p.get("cases") or [(1, 0), (2, 1), (3, 5), (4, 7), (5, 9), (7, -1), (8, -2), (1, -3), (2, -3), (3, -4)] + [(random.Random(i).randint(1, 5), 200 + i) for i in range(60)]
     tmp = tempfile.mkdtemp(prefix="c12_")
     bad = []
     try:
